@@ -55,6 +55,28 @@ pub struct CopyView {
 
 pub type NodeView = BTreeMap<Id, CopyView>;
 
+/// Members whose copy a message resets *as C14 and C20 state it*: the member delta starts from
+/// version 0 and both the receiver's watermark and max version (0 and 0 for a copy only just
+/// created by this message) lie below the delta's watermark. Computed from the message and the
+/// state before it, never from what the code did: an earlier version of the C20 oracle read
+/// "the watermark of the copy moved", which a change that lets incremental updates adopt the
+/// sender's watermark turns into a reset the code itself believes in (seeded/C20-12).
+/// None when the stream is not one an honest encoder produces.
+pub fn stated_resets(ops: &[crate::codec::Op], before: &NodeView, after: &NodeView) -> Option<Vec<Id>> {
+    let groups = crate::codec::group_ops(ops)?;
+    let mut out = Vec::new();
+    for d in groups {
+        if !after.contains_key(&d.id) {
+            continue; // a member the receiver does not track: the delta is skipped
+        }
+        let (gc, mv) = before.get(&d.id).map(|c| (c.gc, c.mv)).unwrap_or((0, 0));
+        if d.from == 0 && d.gc > gc && d.gc > mv {
+            out.push(d.id);
+        }
+    }
+    Some(out)
+}
+
 pub struct Sub {
     pub prefix: String,
     pub handle: Option<ListenerHandle>,
